@@ -325,9 +325,9 @@ func (e *Exec) val(v ssa.Value) Term {
 	case *ssa.Const:
 		return e.constTerm(x)
 	case *ssa.Global:
-		return mk(e.u().globalRef(x), SInt, x.Type())
+		return mk(e.u().globalRef(x), SRef, x.Type())
 	case *ssa.Function:
-		return mk(e.u().funcRef(x), SInt, x.Type())
+		return mk(e.u().funcRef(x), SRef, x.Type())
 	case *ssa.Builtin:
 		return mk("0", SInt, x.Type())
 	}
@@ -947,7 +947,7 @@ func (e *Exec) instr(b *ssa.BasicBlock, ins ssa.Instruction, reach string, h *He
 			h2 = e.zeroStructAt(r, et, h2)
 			// a fact about this execution path only (two branches may allocate at the same clock value)
 			vc.assume(implies(reach, eq(app("dyntype", r), fmt.Sprint(u.typeID(x.Type())))))
-			e.vals[x] = mk(r, SInt, x.Type())
+			e.vals[x] = mk(r, SRef, x.Type())
 			return h2
 		case *types.Array:
 			r, h2 := e.allocRef(h, x.Name()+"_arr")
@@ -964,7 +964,7 @@ func (e *Exec) instr(b *ssa.BasicBlock, ins ssa.Instruction, reach string, h *He
 			so := u.sortOf(et)
 			cv := u.cellVar(so)
 			h2 = h2.set(cv, app("store", h2.get(cv), r, u.zero(et)))
-			e.vals[x] = mk(r, SInt, x.Type())
+			e.vals[x] = mk(r, SRef, x.Type())
 			return h2
 		}
 
@@ -985,7 +985,7 @@ func (e *Exec) instr(b *ssa.BasicBlock, ins ssa.Instruction, reach string, h *He
 		ref := e.val(x.X).S
 		e.nilCheck(ref, reach, exprName(x.X), posOf(x))
 		if e.fieldSortIsStruct(ft) {
-			e.vals[x] = e.name(mk(app("sub", ref, fmt.Sprint(x.Field)), SInt, x.Type()), x.Name())
+			e.vals[x] = e.name(mk(app("sub", ref, fmt.Sprint(x.Field)), SRef, x.Type()), x.Name())
 		} else {
 			e.addrs[x] = &Addr{Kind: 0, Ref: ref, SI: si, FI: x.Field, Elem: ft, T: ft}
 		}
@@ -1055,8 +1055,9 @@ func (e *Exec) instr(b *ssa.BasicBlock, ins ssa.Instruction, reach string, h *He
 		v := e.val(x.X)
 		xt := x.X.Type()
 		if isRefLike(xt) {
-			vc.assume(implies(not(eq(v.S, "0")), eq(app("dyntype", v.S), fmt.Sprint(u.typeID(xt)))))
-			e.vals[x] = mk(v.S, SInt, x.Type())
+			// only on this path: references allocated on different paths may coincide as clock values
+			vc.assume(implies(and(reach, not(eq(v.S, "0"))), eq(app("dyntype", v.S), fmt.Sprint(u.typeID(xt)))))
+			e.vals[x] = mk(v.S, SRef, x.Type())
 			if _, isPtr := xt.Underlying().(*types.Pointer); isPtr {
 				vc.assumptions["typed-nil pointers wrapped in interfaces are identified with nil interfaces"] = true
 			}
@@ -1066,7 +1067,7 @@ func (e *Exec) instr(b *ssa.BasicBlock, ins ssa.Instruction, reach string, h *He
 		bv := u.boxVar(v.Sort)
 		h2 = h2.set(bv, app("store", h2.get(bv), r, v.S))
 		vc.assume(implies(reach, eq(app("dyntype", r), fmt.Sprint(u.typeID(xt)))))
-		e.vals[x] = mk(r, SInt, x.Type())
+		e.vals[x] = mk(r, SRef, x.Type())
 		return h2
 
 	case *ssa.TypeAssert:
@@ -1125,7 +1126,7 @@ func (e *Exec) instr(b *ssa.BasicBlock, ins ssa.Instruction, reach string, h *He
 		ml := u.mapLenVar()
 		h2 = h2.set(md, app("store", h2.get(md), r, fmt.Sprintf("((as const (Array %s Bool)) false)", ks)))
 		h2 = h2.set(ml, app("store", h2.get(ml), r, "0"))
-		e.vals[x] = mk(r, SInt, x.Type())
+		e.vals[x] = mk(r, SRef, x.Type())
 		return h2
 
 	case *ssa.MakeSlice:
@@ -1144,7 +1145,7 @@ func (e *Exec) instr(b *ssa.BasicBlock, ins ssa.Instruction, reach string, h *He
 	case *ssa.MakeClosure:
 		e.closure[x] = x
 		fnv := x.Fn.(*ssa.Function)
-		e.vals[x] = mk(u.funcRef(fnv), SInt, x.Type())
+		e.vals[x] = mk(u.funcRef(fnv), SRef, x.Type())
 		// bindings that are cells escape into the closure: handled at call sites (dynamic calls havoc everything)
 		return h
 
@@ -1204,7 +1205,34 @@ func (e *Exec) instr(b *ssa.BasicBlock, ins ssa.Instruction, reach string, h *He
 		return h
 
 	case *ssa.Slice:
-		e.vals[x] = e.name(e.sliceOp(x, reach, h), x.Name())
+		res := e.name(e.sliceOp(x, reach, h), x.Name())
+		e.vals[x] = res
+		if res.Sort == SSlice && !e.noName {
+			// a sub-slice reads the same cells as its parent, shifted (consequence of the accessor
+			// axioms; stated so that facts about the parent are found from terms over the sub-slice)
+			src := e.val(x.X)
+			if src.Sort == SSlice {
+				var et types.Type
+				switch tt := x.X.Type().Underlying().(type) {
+				case *types.Slice:
+					et = tt.Elem()
+				case *types.Pointer:
+					if at, ok := tt.Elem().Underlying().(*types.Array); ok {
+						et = at.Elem()
+					}
+				}
+				if et != nil {
+					so := u.sortOf(et)
+					u.elemVar(so)
+					lo := "0"
+					if x.Low != nil {
+						lo = e.val(x.Low).S
+					}
+					at := "at_" + sortTag(so)
+					e.vc.assume(fmt.Sprintf("(forall ((m (Array Int (Array Int %s))) (k Int)) (! (= (%s m %s k) (%s m %s (+ %s k))) :pattern ((%s m %s k))))", so, at, res.S, at, src.S, lo, at, res.S))
+				}
+			}
+		}
 		return h
 
 	case *ssa.Return:
@@ -1215,6 +1243,13 @@ func (e *Exec) instr(b *ssa.BasicBlock, ins ssa.Instruction, reach string, h *He
 		e.rets = append(e.rets, retInfo{cond: reach, vals: vs, heap: h, pos: posOf(x), blk: b})
 		if e.top {
 			e.checkPost(len(e.rets)-1, reach, h, vs, posOf(x), b)
+			// vacuity guard per exit: the path condition of this return together with everything
+			// assumed so far must not be refutable (otherwise whatever was proved on this path is void)
+			ob := vc.oblig("cover", "return", reach, "true", "the assumptions along the path to this return are consistent", posOf(x))
+			if ob != nil {
+				ob.Cover = true
+				ob.Light = true
+			}
 		}
 		return h
 
